@@ -264,6 +264,9 @@ func (self Reflect) listSlice(v reflect.Value, onChange OnListValueChange) node.
 				appendedItem := v.Index(v.Len() - 1)
 				return self.child(appendedItem), key, nil
 			} else if key != nil {
+				if !isKeyValid(key) {
+					return nil, nil, fmt.Errorf("no key specified for %s", r.Meta.Ident())
+				}
 				if entries == nil {
 					var err error
 					entries, err = self.buildKeys(r.Selection, r.Meta.KeyMeta(), v)
@@ -330,6 +333,9 @@ func (self Reflect) listMap(v reflect.Value) node.Node {
 		OnNext: func(r node.ListRequest) (node.Node, []val.Value, error) {
 			var item reflect.Value
 			key := r.Key
+			if (r.New || key != nil) && !isKeyValid(key) {
+				return nil, nil, fmt.Errorf("no key specified for %s", r.Meta.Ident())
+			}
 			if r.New {
 				item = self.create(e, nil)
 				keyVal := reflect.ValueOf(key[0].Value())
